@@ -184,7 +184,7 @@ func (rd *ptRenderer) seq(ts []ptok) string {
 	for i, t := range ts {
 		texts[i] = t.text(rd)
 		if rd.mode == "mixed" {
-			around[i] = (t.K == "op" || t.K == "colon" || t.K == "idx" || t.K == "dot" || t.K == "semi") && rd.r.bool()
+			around[i] = rd.r.bool()
 		}
 	}
 	var sb strings.Builder
@@ -203,8 +203,15 @@ func (rd *ptRenderer) seq(ts []ptok) string {
 			sp = true
 		case "spaced": // postfix tokens and ; : attach to the left, everything else is spaced
 			sp = !(b.K == "idx" || b.K == "dot" || b.K == "semi" || b.K == "colon" || a.K == "colon" || (b.K == "op" && (b.S == "++" || b.S == "--" || b.S == ",")))
-		case "mixed":
-			sp = around[i] || around[i+1]
+		case "mixed": // an operator has spaces on both sides or on neither; other gaps are free
+			switch {
+			case a.K == "op":
+				sp = around[i]
+			case b.K == "op":
+				sp = around[i+1]
+			default:
+				sp = around[i]
+			}
 		}
 		if sp || rd.mustSeparate(a, b, texts[i], texts[i+1]) {
 			sb.WriteByte(' ')
@@ -290,7 +297,7 @@ func ptPrefixAtom(t ptok) string {
 func ptPrefixBlock(ts []ptok) string {
 	ss := ptPrefixStmts(ts)
 	if len(ss) == 0 {
-		return "nil"
+		return "()"
 	}
 	return "(begin " + strings.Join(ss, " ") + ")"
 }
@@ -347,7 +354,7 @@ func (c *ptClimber) ifStmt() string {
 	cond := c.expr(0)
 	th, _ := c.peek()
 	c.i++
-	els := "nil"
+	els := "()" // the empty list reads as nil; the word nil would read as a symbol
 	if n, ok := c.peek(); ok && n.K == "kw" && n.S == "else" {
 		c.i++
 		if m, ok := c.peek(); ok && m.K == "kw" && m.S == "if" {
@@ -385,9 +392,9 @@ func (c *ptClimber) forStmt(label string) string {
 	var ctl string
 	switch len(segs) {
 	case 1:
-		ctl = "[nil " + clause(segs[0], "true") + " nil]"
+		ctl = "[() " + clause(segs[0], "true") + " ()]"
 	case 3:
-		ctl = "[" + clause(segs[0], "nil") + " " + clause(segs[1], "true") + " " + clause(segs[2], "nil") + "]"
+		ctl = "[" + clause(segs[0], "()") + " " + clause(segs[1], "true") + " " + clause(segs[2], "()") + "]"
 	default:
 		ctl = "#bad-for-header"
 	}
